@@ -194,6 +194,20 @@ func propC01(c *Ctx) {
 			}
 		}
 	}
+	// the Lean SHA-256 the theorems are instantiated with (pure functional FIPS 180-4) vs crypto/sha256
+	maxN := 200
+	if !c.quick {
+		maxN = 2000
+	}
+	for n := 0; n <= maxN; n++ {
+		b := c.randBytes(n)
+		m, s := c.drv.Ask("sha256 " + hx(b))
+		h := sha256.Sum256(b)
+		r.count("sha256-cross-check")
+		if m != "ok "+hx(h[:]) || s != "ok "+hx(h[:]) {
+			r.stale(Violation{Kind: "impl≠model", Class: "sha256-cross-check", Op: "sha256 " + hx(b), Impl: hx(h[:]), Model: m, Spec: s})
+		}
+	}
 	r.Exhaustive = false
 }
 
